@@ -3,7 +3,7 @@
 import ast
 
 from .cfg import cfg_of, is_catch_all, handler_names, literals
-from .dataflow import Defs, atoms, calls_in, provenance, stmt_of
+from .dataflow import Defs, Reaching, atoms, calls_in, provenance, stmt_of
 from .index import AnalysisError, call_name, dotted, head, norm, walk_body
 
 COMPOUND = (ast.If, ast.While, ast.For, ast.AsyncFor, ast.With, ast.AsyncWith, ast.Try, ast.FunctionDef, ast.AsyncFunctionDef, ast.ClassDef)
@@ -158,3 +158,34 @@ def const_value(node, default=None):
     if isinstance(node, ast.Constant):
         return node.value
     return default
+
+
+_REACH = {}
+
+
+def reaching(func):
+    key = id(func.node)
+    if key not in _REACH:
+        _REACH[key] = (func.node, Reaching(cfg_of(func)))
+    return _REACH[key][1]
+
+
+def prov_at(func, node_or_expr, expr=None):
+    """Flow-sensitive provenance of `expr` at the statement that contains it (or at the given
+    CFG node / statement)."""
+    cfg = cfg_of(func)
+    if expr is None:
+        expr = node_or_expr
+        st = stmt_of(expr)
+        nodes = cfg.nodes_of(st)
+    elif isinstance(node_or_expr, ast.AST):
+        nodes = cfg.nodes_of(node_or_expr)
+    else:
+        nodes = [node_or_expr]
+    if not nodes:
+        raise AnalysisError(f"statement of `{norm(expr)[:60]}` not in the CFG of {func.qualname}")
+    out = set()
+    r = reaching(func)
+    for n in nodes:
+        out |= r.provenance(n, expr)
+    return out
